@@ -397,4 +397,8 @@ def run(ctx, chk):
              "types): no guard, clamp or second opinion between the stored value and the caller (the copy is compared with its source through these accessors)")
     import rules as _rg
     _rg.check_field_getters(chk, "C11.getters", prog, eff, names=None)
+    chk.rule("C11.int-makers", "the integer builders the copy goes through return an item of their width holding the whole parameter "
+             "(a builder whose parameter is narrower than its width copies a 64-bit value modulo 2^32; shared with C03.int-makers)")
+    from props.c03 import check_int_makers
+    check_int_makers(chk, "C11.int-makers", prog, eff)
     chk.exhaustive = True
